@@ -6,14 +6,17 @@ import GoLucene.Proofs.ParamIndep
 
   Proved for every result of `lucene.Parse` (`Subst.parse_C04`), under two decidable exclusions that are recorded
   findings (`noQuotedStarBound`: K-range-quoted-star; `rangesExact`: the range forms on which the two renderers
-  legitimately print different text — float bounds `%.2f`, mixed-kind bounds, open float ranges, numeric-looking field
-  under a two-sided range; each refuted by a theorem with a concrete tree: `count_false_numeric_field`,
-  `differ_int_str`, `differ_float`, `differ_star_float`):
+  legitimately print different text — float bounds `%.2f` (two-sided and open float ranges), mixed-kind bounds,
+  numeric-looking field under a two-sided range; each refuted by a theorem with a concrete tree:
+  `count_false_numeric_field`, `differ_int_str`, `differ_float`, `differ_star_float`):
     whenever the inline renderer succeeds, the parameterized renderer succeeds; its parameters are the query's values
     left to right with their kinds; the number of `?` outside quoted identifiers equals the number of parameters; and
     replacing those `?`, left to right, by the SQL literal texts of the parameters gives EXACTLY the inline SQL.
   `subst_template_renum` extends the substitution clause to numeric ranges up to re-formatting of the bound
-  (`%d` / `%.2f` of the same number); `param_count` proves the count clause from the parameterized renderer alone.
+  (`%d` / `%.2f` of the same number); since fix F12 of `toFloats` (finding K-range-float-open: `a:[* TO 1.5]` was
+  rendered `"a" BETWEEN '*' AND 1.5` inline) this includes EVERY open range with a finite float end
+  (`endsRenum_star_float`, `endsRenum_float_star`, `agree_star_float`).
+  `param_count` proves the count clause from the parameterized renderer alone.
 -/
 namespace GoLucene.C04
 open GoLucene.Subst GoLucene.ParamAgree
@@ -43,5 +46,19 @@ theorem parameterized_sql_is_value_independent (e1 e2 : Expr) (hw1 : wfTree e1 =
     (h1 : renderParam pgFns e1 = .ok (sql1, ps1)) (h2 : renderParam pgFns e2 = .ok (sql2, ps2)) :
     sql1 = sql2 ∧ ps1.length = ps2.length :=
   ParamIndep.param_sql_value_independent e1 e2 hw1 hv1 hw2 hv2 h sql1 ps1 sql2 ps2 h1 h2
+
+/-- the substitution clause up to the re-formatting of numeric range ends (`Renum`: the literal text, or the text
+    re-read by strconv and re-printed with `%d` / `%.2f`), under `rangesRenum`; covers float ranges, and since fix F12
+    open float ranges -/
+theorem substitution_up_to_reformatting (env : Env) (s df : Bytes) (e : Expr) (h : parseQuery env s df = .ok e)
+    (hr : rangesRenum e = true) (sqlI sqlP : Bytes) (ps : List Prim) (hI : render pgFns e = .ok sqlI)
+    (hP : renderParam pgFns e = .ok (sqlP, ps)) :
+    ∃ vs, Rel2 Renum ps vs ∧ substQ false sqlP vs = some sqlI ∧ countQ false sqlP = ps.length :=
+  parse_subst_renum env s df e h hr sqlI sqlP ps hI hP
+
+/-- every open range with a finite float end is admitted by `rangesRenum` (fix F12) -/
+theorem open_float_range_admitted (hf : Bool) (f : F64) (h : f.isFinite = true) :
+    endsRenum hf (.str (b "*")) (.flt f) = true ∧ endsRenum hf (.flt f) (.str (b "*")) = true :=
+  ⟨endsRenum_star_float hf f h, endsRenum_float_star hf f h⟩
 
 end GoLucene.C04
